@@ -1,9 +1,12 @@
 (** C02 -- captured and mirrored output equals what the command wrote.
     Statements only; proofs in Proofs/C02_decode.v and Proofs/C02_loop.v.
-    Kinds: plain = full strength on the faithful model; [_partial] = under an
-    explicit boolean guard; [_refuted] = the faithful model violates the full
-    statement (defect F-C02); [C02_repaired_*] = full strength, but about the
-    REPAIRED read loop (incremental decoder), not about the code as it is. *)
+
+    The code decodes each stream with ONE incremental decoder, flushed at EOF
+    (fix of F-C02).  The faithful model of that loop is [handle_output_inc] /
+    [decode_chunks_inc] / [run_model_inc]; all headline theorems are about it and
+    hold at full strength, without any guard.  The per-read loop the code had
+    before the fix ([handle_output], [decode_chunks], [run_model]) is kept in the
+    "Historical record" section at the end. *)
 From InvokeVerif Require Import Corr.C02Corr Proofs.C02_decode Proofs.C02_loop.
 Local Open Scope N_scope.
 
@@ -13,61 +16,46 @@ Theorem C02_decoder_is_reference :
   forall (e : enc) (bs : bytes), decode_all e bs = ref_decode e bs.
 Proof. exact decoder_is_reference. Qed.
 
-(** Layer 1b: what the code does (decode each read afresh) against decoding
-    the whole stream.  FALSE in general ... *)
-Theorem C02_chunked_decode_refuted :
-  exists chunks, List.concat (decode_chunks Utf8 chunks) <> decode_all Utf8 (List.concat chunks).
-Proof. exact chunked_decode_refuted. Qed.
-
-(** ... true when every read but the last ends at a character boundary
-    (missing: cuts inside a multi-byte sequence, F-C02) ... *)
-Theorem C02_chunked_decode_partial :
-  forall e chunks, cuts_at_initial e chunks = true ->
-    List.concat (decode_chunks e chunks) = decode_all e (List.concat chunks).
-Proof. exact chunked_decode_partial. Qed.
-
-(** ... and unconditionally for the single-byte encodings. *)
-Theorem C02_chunked_decode_single_byte :
-  forall e chunks, e <> Utf8 ->
-    List.concat (decode_chunks e chunks) = decode_all e (List.concat chunks).
-Proof. exact chunked_decode_stateless. Qed.
-
-(** Repaired loop (one incremental decoder per stream, flushed at EOF):
-    full statement, every chunking. *)
-Theorem C02_repaired_chunked_decode :
+(** Layer 1b: decoding across read boundaries -- every chunking, every encoding. *)
+Theorem C02_chunked_decode :
   forall e chunks, List.concat (decode_chunks_inc e DInit chunks) = decode_all e (List.concat chunks).
 Proof. exact chunked_decode_repaired. Qed.
 
-Theorem C02_repaired_chunking_irrelevant :
+Theorem C02_chunking_irrelevant :
   forall e c1 c2, List.concat c1 = List.concat c2 ->
     List.concat (decode_chunks_inc e DInit c1) = List.concat (decode_chunks_inc e DInit c2).
 Proof. exact repaired_chunking_irrelevant. Qed.
 
-(** Layer 2: the read loop.  Every read before EOF is captured once, in order. *)
+(** Layer 2: the read loop.  Nothing lost, duplicated or reordered: the captured
+    text is the decoding of the complete byte stream delivered before EOF. *)
 Theorem C02_loop_capture_all :
-  forall e hide script, lo_buf (handle_output e hide script []) = decode_chunks e (chunks_of script).
-Proof. exact loop_capture_all. Qed.
+  forall e hide script,
+    List.concat (lo_buf (handle_output_inc e hide DInit script [])) = decode_all e (stream_bytes script).
+Proof. exact inc_capture_all. Qed.
 
 Theorem C02_hidden_receives_nothing :
-  forall e script buf, lo_writes (handle_output e true script buf) = [].
-Proof. exact loop_hidden_receives_nothing. Qed.
+  forall e script st buf, lo_writes (handle_output_inc e true st script buf) = [].
+Proof. exact inc_writes_hidden. Qed.
 
+(** piece by piece, in the same order *)
 Theorem C02_mirror_equals_capture :
-  forall e script, lo_writes (handle_output e false script []) = lo_buf (handle_output e false script []).
-Proof. exact loop_mirror_equals_capture. Qed.
+  forall e script,
+    lo_writes (handle_output_inc e false DInit script []) = lo_buf (handle_output_inc e false DInit script []).
+Proof. exact inc_mirror_equals_capture. Qed.
 
 (** Watchers see the growing prefixes of the captured text. *)
 Theorem C02_loop_submits_growing :
   forall e hide script,
-    lo_submits (handle_output e hide script []) = growing [] (decode_chunks e (chunks_of script)).
-Proof. exact loop_submits_growing. Qed.
+    lo_submits (handle_output_inc e hide DInit script []) =
+    growing [] (lo_buf (handle_output_inc e hide DInit script [])).
+Proof. exact inc_submits_growing. Qed.
 
 (** "even when the process exits right after writing": the position of the
     exit event in the script does not matter. *)
 Theorem C02_exit_position_irrelevant :
-  forall e hide s1 s2 buf, chunks_of s1 = chunks_of s2 ->
-    handle_output e hide s1 buf = handle_output e hide s2 buf.
-Proof. exact loop_exit_irrelevant. Qed.
+  forall e hide st s1 s2 buf, chunks_of s1 = chunks_of s2 ->
+    handle_output_inc e hide st s1 buf = handle_output_inc e hide st s2 buf.
+Proof. exact inc_exit_irrelevant. Qed.
 
 (** [normalize_hide] (with the async override) is the documented table (finite: 8 x 2 x 2 x 2). *)
 Theorem C02_hide_table :
@@ -76,44 +64,43 @@ Theorem C02_hide_table :
     (stdout_hidden (to_req h) async out_given, stderr_hidden (to_req h) async err_given).
 Proof. exact hide_table. Qed.
 
-(** Flagship: the run model satisfies the executable spec on all inputs ...
-    FALSE at full strength (F-C02) *)
-Theorem C02_run_meets_spec_refuted : exists i, spec_in i (run_model i) = false.
-Proof. exact run_meets_spec_refuted. Qed.
-
-(** ... true when no read boundary of a captured stream cuts a character ... *)
-Theorem C02_run_meets_spec_partial :
-  forall i, chunk_guard i = true -> spec_in i (run_model i) = true.
-Proof. exact run_meets_spec_partial. Qed.
-
-(** ... true for the single-byte encodings without any guard ... *)
-Theorem C02_run_meets_spec_single_byte :
-  forall i, ri_enc i <> Utf8 -> spec_in i (run_model i) = true.
-Proof. exact run_meets_spec_stateless. Qed.
-
-(** ... and true without any guard for the repaired loop. *)
-Theorem C02_repaired_run_meets_spec : forall i, spec_in i (run_model_inc i) = true.
+(** Flagship: the run model satisfies the executable spec on ALL inputs. *)
+Theorem C02_run_meets_spec : forall i, spec_in i (run_model_inc i) = true.
 Proof. exact repaired_run_meets_spec. Qed.
 
-(** Non-vacuity: guards inhabited by non-trivial objects. *)
+(** Non-vacuity. *)
 Example C02_ex_decoder :      (* a, e-acute, euro sign, a truncated 4-byte sequence, a surrogate *)
   decode_all Utf8 [97; 195; 169; 226; 130; 172; 240; 159; 65; 237; 160; 128]
   = [97; 233; 8364; REPL; 65; REPL; REPL; REPL].
 Proof. vm_compute. reflexivity. Qed.
 
-Example C02_ex_partial_guard :
-  cuts_at_initial Utf8 [[97; 195; 169]; [226; 130; 172]; [240; 159]] = true /\
-  List.concat (decode_chunks Utf8 [[97; 195; 169]; [226; 130; 172]; [240; 159]]) = [97; 233; 8364; REPL].
-Proof. vm_compute. split; reflexivity. Qed.
-
-Example C02_ex_run_guard :
-  let i := mkIn Utf8 [RChunk [195; 169]; RExit; RChunk [226; 130; 172]] [RChunk [255]; RChunk [65]]
+Example C02_ex_run :          (* characters cut by read boundaries on both streams, stderr hidden *)
+  let i := mkIn Utf8 [RChunk [195]; RExit; RChunk [169; 226]; RChunk [130; 172]] [RChunk [255]; RChunk [240; 159]]
                 HErr false false false false in
-  chunk_guard i = true /\
-  run_model i = mkObs [233; 8364] [REPL; 65] [233; 8364] [] [[233]; [233; 8364]] [[REPL]; [REPL; 65]].
-Proof. vm_compute. split; reflexivity. Qed.
+  run_model_inc i = mkObs [233; 8364] [REPL; REPL] [233; 8364] [] [[233]; [233; 8364]] [[REPL]; [REPL; REPL]].
+Proof. vm_compute. reflexivity. Qed.
 
-Example C02_ex_repaired_witness :   (* the refutation witness, decoded by the repaired loop *)
-  run_model_inc witness_in = mkObs [233] [] [233] [] [[233]] [] /\
-  run_model witness_in = mkObs [REPL; REPL] [] [REPL; REPL] [] [[REPL]; [REPL; REPL]] [].
+(** * Historical record: the per-read loop before the fix of F-C02
+    ([self.decode(data)] once per read, a fresh decoder each time). *)
+
+Theorem C02_chunked_decode_historical_refuted :
+  exists chunks, List.concat (decode_chunks Utf8 chunks) <> decode_all Utf8 (List.concat chunks).
+Proof. exact chunked_decode_refuted. Qed.
+
+Theorem C02_run_meets_spec_historical_refuted : exists i, spec_in i (run_model i) = false.
+Proof. exact legacy_run_refuted. Qed.
+
+(** what did hold of the old loop: no read boundary inside a character *)
+Theorem C02_chunked_decode_historical_partial :
+  forall e chunks, cuts_at_initial e chunks = true ->
+    List.concat (decode_chunks e chunks) = decode_all e (List.concat chunks).
+Proof. exact chunked_decode_partial. Qed.
+
+Theorem C02_run_meets_spec_historical_partial :
+  forall i, chunk_guard i = true -> spec_in i (run_model i) = true.
+Proof. exact run_meets_spec_partial. Qed.
+
+Example C02_ex_historical_witness :   (* c3|a9: old loop vs the loop as it is *)
+  run_model witness_in = mkObs [REPL; REPL] [] [REPL; REPL] [] [[REPL]; [REPL; REPL]] [] /\
+  run_model_inc witness_in = mkObs [233] [] [233] [] [[233]] [].
 Proof. vm_compute. split; reflexivity. Qed.
